@@ -81,7 +81,12 @@ inline OpResult apply(const Op& op, int slot) {
 		const uint8_t* d = g_savebuf.buf.data();
 		for (unsigned b = bits; b < sizeof(Inst::SerialBuffer) * 8; ++b) if (d[b >> 3] & (1u << (b & 7))) r.saveOk = 0;
 	} break;
-	case OP_LOAD: m.load(g_loadbuf[op.a].buf); break;
+	case OP_LOAD:
+		if (op.b) {   // round trip through a buffer that was used before: save() into it, load() from it (op.a names the current activity)
+			static SerBuf tmp; memset(&tmp, op.b == 1 ? 0xFF : 0xA5, sizeof tmp);
+			m.save(tmp.buf); m.load(tmp.buf);
+		} else m.load(g_loadbuf[op.a].buf);
+		break;
 #endif
 #if VX_LOG
 	case OP_ATTACH: m.attachLogger(op.a ? &g_log : nullptr); break;
@@ -100,6 +105,7 @@ inline OpResult apply(const Op& op, int slot) {
 	default: die("apply: op kind %d not available in this configuration", op.k);
 	}
 	g_alloc.in_lib = 0;
+	if (op.k != OP_DESTROY) poison_vacant(m);
 	return r;
 }
 
@@ -108,7 +114,7 @@ inline void op_text(Text& t, const Op& op) {
 	case OP_CONSTRUCT: t.add("construct(%s)", op.a ? "logger" : "-"); break;
 	case OP_CHANGE: case OP_IMM: case OP_REPLAY_T: case OP_REPLAY_E: case OP_SUCCEED: case OP_FAIL: t.add("%s(%d)", OP_NAME[op.k], op.a); break;
 	case OP_CHANGEW: case OP_IMMW: t.add("%s(%d,p%d)", OP_NAME[op.k], op.a, op.b); break;
-	case OP_LOAD: if (op.a == N) t.add("load(<inactive>)"); else t.add("load(<active %d>)", op.a); break;
+	case OP_LOAD: if (op.b) t.add("save+load(reused buffer 0x%02x)", op.b == 1 ? 0xFF : 0xA5); else if (op.a == N) t.add("load(<inactive>)"); else t.add("load(<active %d>)", op.a); break;
 	case OP_ATTACH: t.add("attachLogger(%s)", op.a ? "on" : "null"); break;
 	case OP_PLAN_CHANGE: t.add("plan.change(%d,%d)", op.a, op.b); break;
 	case OP_PLAN_CHANGEW: t.add("plan.changeWith(%d,%d,p%d)", op.a, op.b, op.c); break;
